@@ -207,6 +207,11 @@ func (s subSpec) String() string {
 
 func resBody(name string, kind string, writes []string, subs []subSpec) func() {
 	return func() {
+		// Go's RWMutex: a writer waiting in Lock keeps new readers out. With that modelled, a reader that takes the
+		// read lock a second time while a writer has announced itself is the deadlock it is in Go. (The bus
+		// scenarios keep the plain model: their only read-write lock is never taken twice by one thread.)
+		verifrt.SetWriterPreference(true)
+		defer verifrt.SetWriterPreference(false)
 		var val *resource.Value
 		var col *resource.Collection
 		if kind == "value" {
